@@ -139,7 +139,7 @@ def e2e(config, req_route):
 
 
 def replay_accept(model, obligation):
-    bad = check_pairs(limit=40)
+    bad = check_pairs(limit=60)
     if bad:
         return dict(confirmed=True, function='UCMM.request via logix.process', input=bad[0]['key'], observed=bad[0]['observed'], required=bad[0]['required'])
     return dict(confirmed=False)
@@ -151,8 +151,9 @@ def seg(p):
 
 def check_pairs(limit=None):
     from . import wire
-    configs = ['none', 'simple', seg([(1, 0)]), seg([(1, 1)]), seg([(2, '10.0.0.1')])]
-    reqs = [None, [('port', 1, 0)], [('port', 1, 1)], [('port', 2, 0)], [('port', 2, '10.0.0.1')], [('port', 1, 0), ('port', 1, 1)]]
+    # (the last configuration and the last two requests differ only in the KIND of the link: the number 5 vs the address string '5')
+    configs = ['none', 'simple', seg([(1, 0)]), seg([(1, 1)]), seg([(2, '10.0.0.1')]), seg([(1, 5)])]
+    reqs = [None, [('port', 1, 0)], [('port', 1, 1)], [('port', 2, 0)], [('port', 2, '10.0.0.1')], [('port', 1, 0), ('port', 1, 1)], [('port', 1, 5)], [('port', 1, '5')]]
     out = []
     n = 0
     for cfg in configs:
@@ -313,10 +314,10 @@ def bounded(tier, seed):
         if not ok and len(violations) < 8:
             violations.append(dict(key='main(%r)' % (argv,), observed='UCMM personality %r' % (got,), required='%r' % (want,)))
     bad = check_pairs()
-    ev += 30
+    ev += 48
     for b in bad[:5]:
         violations.append(b)
-    distinct |= set(('pair', i) for i in range(30))
+    distinct |= set(('pair', i) for i in range(48))
     return dict(evaluations=ev, distinct_nontrivial=len(distinct), distinct_keys=distinct_keys(distinct),
                 rule='route-path texts (p/l for ports {1,2,15,255} x numeric/IP links, chained 2..3 hops, JSON lists of dicts and of p/l strings) vs a reference '
                      'parser; every (personality in none/simple/3 configured paths) x (request route path absent / equal / differing in port, link, link kind, length) '
